@@ -75,6 +75,14 @@ type SCase struct {
 	Offline       []Change `json:"offline,omitempty"` //
 	Post2         []Change `json:"post2,omitempty"`   // changes after the reconnection
 	Faults        []Fault  `json:"faults,omitempty"`  // failing region saves on the follower
+	// Leader restart (last phase): BeforeRestart changes are broadcast, then the leader side is rebuilt
+	// (new RegionSyncer = fresh change log over the same region storage, so its next index is the
+	// persisted one, up to 100 behind; new gRPC server on the same address) while the follower keeps
+	// running with its cache and index and reconnects on its own; then the AfterRestart changes are
+	// reported to the new leader one at a time (one broadcast each).
+	LeaderRestart bool     `json:"leader_restart,omitempty"`
+	BeforeRestart []Change `json:"before_restart,omitempty"`
+	AfterRestart  []Change `json:"after_restart,omitempty"`
 	// Ex-leader follower: the follower was the PD leader before and kept its process, so its cache
 	// already holds regions built from TiKV heartbeats with raft term ExTerm (> 0). It holds the
 	// leader's initial regions number i with i % ExEvery == ExOff % ExEvery, at the initial epoch
@@ -154,6 +162,11 @@ func genSync(t *rapid.T) SCase {
 		c.Offline = genChanges(t, "noffline", []int{0, 2, 2, 3, 5, 110})
 		c.Post2 = genChanges(t, "npost2", []int{0, 1, 3})
 	}
+	if rapid.IntRange(0, 5).Draw(t, "leaderRestart") == 0 {
+		c.LeaderRestart = true
+		c.BeforeRestart = genChanges(t, "nbefore", []int{0, 1, 2, 3, 5, 20, 99, 100, 101, 130})
+		c.AfterRestart = genChanges(t, "nafter", []int{1, 3, 8, 8, 12, 40, 110})
+	}
 	if rapid.IntRange(0, 2).Draw(t, "exLeader") == 0 {
 		c.ExTerm = rapid.SampledFrom([]uint64{1, 6, 100}).Draw(t, "exTerm")
 		c.ExEvery = rapid.SampledFrom([]int{1, 1, 2, 3}).Draw(t, "exEvery")
@@ -200,13 +213,14 @@ func (f *fakeSrv) GetBasicCluster() *core.BasicCluster { atomic.AddInt64(&f.bcCa
 // pdService is the leader's gRPC service: only SyncRegions is implemented, as in server/grpc_service.go.
 type pdService struct {
 	pdpb.PDServer
-	fx *fixture
+	fx     *fixture
+	leader *syncer.RegionSyncer
 }
 
 func (p *pdService) SyncRegions(stream pdpb.PD_SyncRegionsServer) error {
 	t := p.fx.newTap(stream)
 	defer close(t.done)
-	return p.fx.leader.Sync(t)
+	return p.leader.Sync(t)
 }
 
 // msg is what one SyncRegionResponse carried (snapshot taken when it is sent; the
@@ -406,13 +420,47 @@ func newFixture(histIdx uint64, followerRegionStorage bool) (*fixture, error) {
 		return fail(err)
 	}
 	fx.addr = "http://" + lis.Addr().String()
-	fx.gs = grpc.NewServer()
-	pdpb.RegisterPDServer(fx.gs, &pdService{fx: fx})
-	go fx.gs.Serve(lis)
 	fx.leader = syncer.NewRegionSyncer(fx.leaderSrv)
+	fx.serve(lis)
 	fx.follower = syncer.NewRegionSyncer(fx.followerSrv)
-	go fx.leader.RunServer(fx.notifier, fx.quit)
 	return fx, nil
+}
+
+// serve starts the gRPC service and the broadcast loop of the current leader syncer.
+func (fx *fixture) serve(lis net.Listener) {
+	fx.gs = grpc.NewServer()
+	pdpb.RegisterPDServer(fx.gs, &pdService{fx: fx, leader: fx.leader})
+	go fx.gs.Serve(lis)
+	go fx.leader.RunServer(fx.notifier, fx.quit)
+}
+
+// restartLeader rebuilds the leader side the way a restart of the leader process does: the streams
+// are torn down, a new RegionSyncer (fresh change log that reloads the persisted index) serves on the
+// same address over the same storage and region view. The follower is not touched.
+func (fx *fixture) restartLeader() error {
+	fx.mu.Lock()
+	for _, t := range fx.taps {
+		t.dead = true
+	}
+	fx.mu.Unlock()
+	close(fx.quit)
+	fx.gs.Stop()
+	var lis net.Listener
+	var err error
+	for i := 0; i < 200; i++ {
+		if lis, err = net.Listen("tcp", strings.TrimPrefix(fx.addr, "http://")); err == nil {
+			break
+		}
+		time.Sleep(10 * time.Millisecond)
+	}
+	fx.notifier, fx.quit = make(chan *core.RegionInfo, 10000), make(chan struct{})
+	if err != nil {
+		fx.gs = nil
+		return err
+	}
+	fx.leader = syncer.NewRegionSyncer(fx.leaderSrv)
+	fx.serve(lis)
+	return nil
 }
 
 // close tears the fixture down in the background (StopSyncWithLeader sleeps for a second).
@@ -715,6 +763,9 @@ type syncResult struct {
 	saveFaults   int // region saves of the follower that were made to fail
 	staleStored  int // regions compared whose latest save on the follower failed
 	exLeader     int // regions the follower held from its time as leader (with a raft term)
+	restarted    bool
+	behind       uint64 // leader restart: how far the new leader's next index is behind the follower's
+	reused       int    // broadcasts after the restart that lie entirely below the follower's old index
 }
 
 // prefillExLeader fills the follower's cache the way a former leader's cache looks: regions built
@@ -911,6 +962,70 @@ func execSync(c SCase, excludeKnown bool) (res syncResult) {
 			return
 		}
 	}
+	if c.LeaderRestart {
+		if !phase("before-restart", t, c.BeforeRestart) {
+			return
+		}
+		nTaps := func() int { fx.mu.Lock(); defer fx.mu.Unlock(); return len(fx.taps) }
+		k := nTaps()
+		f0 := fx.follower.VerifNextIndex()
+		if err := fx.restartLeader(); err != nil {
+			res.inconclusive = "leader restart: " + err.Error()
+			return
+		}
+		l0 := fx.leader.VerifNextIndex()
+		res.restarted = true
+		if f0 > l0 {
+			res.behind = f0 - l0
+		}
+		// the follower notices the broken stream and opens a new one by itself
+		if t = fx.waitBound(k); t == nil {
+			res.inconclusive = "leader restart: the follower did not re-establish the sync stream in time"
+			return
+		}
+		if !fx.waitFollower(t) {
+			res.inconclusive = "leader restart: the follower did not apply the messages sent in time"
+			return
+		}
+		// one broadcast per change, so that the first ones re-use indexes the follower has seen
+		total := 0
+		for _, ch := range c.AfterRestart {
+			fx.mu.Lock()
+			before := t.post
+			fx.mu.Unlock()
+			n := report([]Change{ch})
+			if n == 0 {
+				continue
+			}
+			if l0+uint64(total+n) <= f0 {
+				res.reused++
+			}
+			total += n
+			if !waitFor(func() bool { fx.mu.Lock(); defer fx.mu.Unlock(); return t.post >= before+n }) {
+				res.inconclusive = "after-restart: the leader did not broadcast the reported regions in time"
+				return
+			}
+		}
+		if total > 0 {
+			// The follower rewinds to the start index of a broadcast that does not match its own and
+			// records every region: after the last broadcast its next index is that message's end.
+			// (If that happens to be the index it had before, fall back to counting applied regions.)
+			fx.mu.Lock()
+			last := t.last
+			fx.mu.Unlock()
+			want := last.start + uint64(len(last.ids))
+			ok := false
+			if want == f0 || fx.faulty && len(fx.failAt) > 0 {
+				ok = fx.waitFollower(t)
+			} else {
+				ok = waitFor(func() bool { return fx.follower.VerifNextIndex() == want })
+			}
+			if !ok {
+				res.inconclusive = "after-restart: the follower did not reach the leader's index in time"
+				return
+			}
+		}
+	}
 	// Every wait above ended with the follower's next index equal to the index after the last message
 	// sent to it, which is the leader's next index (except right after a full synchronisation, which
 	// leaves the follower at the number of regions received until the first broadcast).
@@ -1048,6 +1163,11 @@ func runSync(c SCase) (vkit.Info, error) {
 	info.ClassIf(!c.RegionStorage, "follower-default-storage")
 	info.ClassIf(res.saveFaults > 0, "follower-save-fault")
 	info.ClassIf(res.exLeader > 0, fmt.Sprintf("ex-leader-follower-term=%d", c.ExTerm))
+	info.ClassIf(res.restarted, "leader-restart")
+	info.ClassIf(res.restarted && res.behind == 0, "leader-restart-index-behind=0")
+	info.ClassIf(res.restarted && res.behind > 0 && res.behind <= 100, "leader-restart-index-behind=1..100")
+	info.ClassIf(res.restarted && res.behind > 100, "leader-restart-index-unrelated")
+	info.ClassIf(res.reused > 0, "leader-restart-reused-index-broadcast")
 	info.ClassIf(res.saveFaults > 1, "follower-save-faults>1")
 	info.ClassIf(res.staleStored > 0, "follower-storage-behind")
 	known := 0
@@ -1078,7 +1198,7 @@ func runSync(c SCase) (vkit.Info, error) {
 	h := fnv.New64a()
 	fmt.Fprintf(h, "%+v", c)
 	info.Sample = map[string]interface{}{"regions": n, "hist": c.HistIdx, "hist_plus_n": c.HistPlusN, "pre": len(c.Pre), "post": len(c.Post),
-		"reconnect": c.Reconnect, "offline": len(c.Offline), "post2": len(c.Post2), "region_storage": c.RegionStorage, "save_faults": res.saveFaults, "ex_leader_regions": res.exLeader, "ex_term": c.ExTerm,
+		"reconnect": c.Reconnect, "offline": len(c.Offline), "post2": len(c.Post2), "region_storage": c.RegionStorage, "save_faults": res.saveFaults, "ex_leader_regions": res.exLeader, "ex_term": c.ExTerm, "leader_restart": c.LeaderRestart, "before_restart": len(c.BeforeRestart), "after_restart": len(c.AfterRestart),
 		"full_sync_batches": res.fullBatches, "regions_sent": res.sent, "with_leader": res.withLeader, "case_fnv64": fmt.Sprintf("%016x", h.Sum64())}
 	return info, nil
 }
